@@ -303,8 +303,8 @@ def misc(rep, tier):
     ST_ = _auditok()["ST"]
 
     for ch in (1, 2):
-        for loud in (True, False):
-            w = ((b"\x10\x27" if loud else b"\x01\x00") * ch) * 4
+        for loud, nrep in ((True, 4), (False, 4), (True, 40000), (False, 40000)):  # a few samples, and more than 64 KiB
+            w = ((b"\x10\x27" if loud else b"\x01\x00") * ch) * nrep
             for how in ("region.numpy", "to_array", "asarray"):
                 rep.add("evaluations")
                 want = bool(util.AudioEnergyValidator(50, 2, ch).is_valid(bytes(w)))
@@ -316,8 +316,14 @@ def misc(rep, tier):
                 except Exception:
                     pass
                 got = bool(util.AudioEnergyValidator(50, 2, ch).is_valid(bytes(w)))
+                if got == want and how != "to_array":
+                    # ... and a second export of that very region object shows the region's samples, not the edited array
+                    again = reg.numpy()
+                    clean = _sig.to_array(bytes(w), 2, ch)
+                    if again.shape != clean.shape or not (again == clean).all():
+                        got = "a later export of the same region object returns the edited values"
                 if got != want:
-                    rep.violation("verdict after array edit how=%s ch=%d loud=%s" % (how, ch, loud),
+                    rep.violation("verdict after array edit how=%s ch=%d loud=%s n=%d" % (how, ch, loud, nrep),
                                   "after an array made from equal bytes (%s) was edited in place, the window is judged %r, before %r" % (how, got, want),
                                   {"kind": "misc"})
     # the energy function itself, given the caller's own array / list more than once: same value, operand untouched
